@@ -18,6 +18,9 @@
 //	count/wide     the same for large (up to 2^34) positive parameters at sampled
 //	               elapsed times
 //	count/pow32    the same with one increment parameter an exact multiple of 2^32
+//
+// strength.go adds the histories of harness/LESSONS.md: count/staged, str/kept,
+// str/edge, str/big, b32/kept, b32/long, id/odd-start, id/reader, cold-start, defaults.
 package main
 
 import (
@@ -45,13 +48,24 @@ func main() {
 		"b32/bytes4: one case = all 65536 four-byte inputs with a fixed two-byte prefix (quick: the 1024 digit-pair prefixes; thorough: all 65536 prefixes = every four-byte input). " +
 		"id/gen: one case = one (randBit, start-time offset) generator and 8..40 Generate calls, each between two readings of time.Since(start).Milliseconds(), the harness spinning until that reading changes between some calls; distinct = (randBit, offset class, offset); non-trivial = at least one pair of IDs with disjoint sandwiches compared. " +
 		"str/gen: one case = one character set (size, rune widths, duplicates) and one random source (PRNG, locked PRNG, constant 0, counter, periodic low-entropy, chunk-crafted boundary words), Generate(n) for every n in 0..64 and a few larger n; distinct = hash of (set, source kind, source words); non-trivial = set size >= 2 or multi-byte runes. " +
-		"count/gen, count/wide and count/pow32: one case = 1..6 AddRule calls with positive parameters in random order and 3..10 ids; distinct = hash of the rule list; non-trivial = at least one rule whose period was crossed.")
+		"count/gen, count/wide and count/pow32: one case = 1..6 AddRule calls with positive parameters in random order and 3..10 ids; distinct = hash of the rule list; non-trivial = at least one rule whose period was crossed. " +
+		"added histories (strength.go): count/staged = 2..7 rules added in windows of 1..3 AddRule calls with no observing call inside a window, after each window a permuted first observer (Generate, Min or Max), complete sweeps, and the (id, elapsed time) asked last before the window asked again first after it; " +
+		"str/kept = 1..3 generators (sets of mixed rune widths, optionally one shared source) used alternately for 24..60 Generate calls, every result kept and examined again after later calls, one call in six aborted by a panic of the random source at its word 1..3 and followed by healthy calls; " +
+		"str/edge = sets of 1..12 boundary runes with U+FFFD as a member (or the whole set), results judged byte-exactly; str/big = n in 4095..70000 (2^20 thorough) or a set of 32767..70000 (2^18 thorough) runes; " +
+		"b32/kept = 8..120 IDs all encoded first, every result parsed twice later (permuted, partly through a reused buffer); b32/long = a 31..65537-byte digit string with one or two bytes outside the alphabet at ~37 positions; " +
+		"id/odd-start = a start time in the future, beyond time.Duration saturation on either side, or without monotonic reading; " +
+		"id/reader = child processes: one generator, a few IDs with the real crypto/rand.Reader, 6..30 with a replaced reader (failing, failing after 1..40 bytes, one byte per Read, all 0xFF, all zero), 3..10 with the real one again, each between two clock readings; " +
+		"cold-start = one fresh process per case, its first golib call given by index mod 8; defaults = child processes re-configuring the package-level generators, String and Id judged against the new configuration.")
 	r.Assume("the 32-character alphabet is the documented constant \"0123456789abcdefghjkmnprstuvwxyz\" (digits and lower-case letters without i, l, o, q)")
 	r.Assume("for randBit outside 2..22 the random part has the clamped width NewIdGenerator documents (<=1 -> 16 bits, >22 -> 22 bits): the ID always has 2..22 random bits below a 41-bit time field")
 	r.Assume("the time field is compared modulo 2^41 with the interval [elapsed ms read just before the call, elapsed ms read just after the call]; both readings and golib's own reading come from the same monotonic clock (the start time carries a monotonic reading), so this is an order relation between three readings, never a duration; increasing order is not asserted across a 2^41 ms wrap")
 	r.Assume("random sources offered to StrGenerator reach an accepted index: after a generous budget of words every source returns only zero words (index 0 is accepted by any rejection sampler), so a Generate that still does not return is not making progress; a source yielding only rejected indices for ever is excluded by construction")
 	r.Assume("CountGenerator oracle is only applied where the exact Max fits comfortably in an int (sum over rules of period/interval*intervalMaxIncr + periodEndMaxIncr < 2^62)")
 	r.Assume("strconv.FormatInt is the specification of the standard numerals")
+	r.Assume("a Go string returned by Generate / Base32 is a value: examining it again later (str/kept, b32/kept) asks for nothing beyond what the statement says about the returned value")
+	r.Assume("the package-level String and Id are the Generate of the package-level StrGenerator / IdGenerator as configured by the last SetStrGeneratorCharSet / SetIdGeneratorStartTime call; the width of the random part of the default IdGenerator is not assumed (any width 2..22 that puts the elapsed milliseconds above it is accepted)")
+	r.Assume("for a start time in the future only non-negativity of the IDs is judged")
+	r.Assume("Generate draws its random part through the process-wide variable crypto/rand.Reader (id/reader replaces it in a child process); if a tree does not, the replaced reader is simply never read and the engine degenerates to id/gen (the floor idreader_cases_with_failed_reads then reports the run inconclusive)")
 
 	cases(r, "b32/roundtrip", r.N(800, 30000), ev.Opt{HangViolation: true, MaxCaseSeconds: 60}, roundtripCase)
 	cases(r, "b32/bytes", r.N(513+6000, 513+300000), ev.Opt{HangViolation: true, MaxCaseSeconds: 60}, bytesCase)
@@ -61,6 +75,17 @@ func main() {
 	cases(r, "count/gen", r.N(5000, 200000), ev.Opt{HangViolation: true, MaxCaseSeconds: 60}, countCase)
 	cases(r, "count/wide", r.N(5000, 200000), ev.Opt{HangViolation: true, MaxCaseSeconds: 60}, countWideCase)
 	cases(r, "count/pow32", r.N(60, 3000), ev.Opt{HangViolation: true, MaxCaseSeconds: 60}, countPow32Case)
+
+	cases(r, "count/staged", r.N(3000, 100000), ev.Opt{HangViolation: true, MaxCaseSeconds: 60}, countStagedCase)
+	cases(r, "str/kept", r.N(3000, 40000), ev.Opt{HangViolation: true, MaxCaseSeconds: 60}, strKeptCase)
+	cases(r, "str/edge", r.N(3000, 100000), ev.Opt{HangViolation: true, MaxCaseSeconds: 60}, strEdgeCase)
+	cases(r, "str/big", r.N(60, 1200), ev.Opt{HangViolation: true, MaxCaseSeconds: 120}, strBigCase)
+	cases(r, "b32/kept", r.N(3000, 100000), ev.Opt{HangViolation: true, MaxCaseSeconds: 60}, b32KeptCase)
+	cases(r, "b32/long", r.N(600, 20000), ev.Opt{HangViolation: true, MaxCaseSeconds: 60}, b32LongCase)
+	cases(r, "id/odd-start", r.N(3000, 60000), ev.Opt{HangViolation: true, MaxCaseSeconds: 60, AlwaysLog: true}, idOddStartCase)
+	r.CasesProc("id/reader", r.N(240, 4800), ev.Opt{Procs: 6, HangViolation: true, MaxCaseSeconds: 60, AlwaysLog: true}, idReaderCase)
+	r.CasesProc("cold-start", 2*coldKinds, ev.Opt{Procs: 2 * coldKinds, HangViolation: true, MaxCaseSeconds: 60}, coldCase)
+	r.CasesProc("defaults", r.N(120, 2400), ev.Opt{Procs: 6, HangViolation: true, MaxCaseSeconds: 60, AlwaysLog: true}, defaultsCase)
 
 	// anti-vacuity floors (far below what a quick run observes)
 	r.Require("roundtrip_ids", 500000)
@@ -92,5 +117,51 @@ func main() {
 	r.Require("count_bounds_checked", 1000000)
 	r.Require("count_period_crossings", 5000)
 	r.Require("countwide_generate_calls", 20000)
+	// strength.go
+	r.Require("countstaged_addrule_windows", 5000)
+	r.Require("countstaged_windows_adding_a_smaller_period", 1000)
+	r.Require("countstaged_smaller_period_then_first_observer_generate", 200)
+	r.Require("countstaged_smaller_period_then_first_observer_min", 200)
+	r.Require("countstaged_smaller_period_then_first_observer_max", 200)
+	r.Require("countstaged_probes_repeated_across_addrule", 2000)
+	r.Require("countstaged_generate_calls", 500000)
+	r.Require("strkept_results_rechecked", 100000)
+	r.Require("strkept_generator_switches", 5000)
+	r.Require("strkept_cases_sharing_one_source", 300)
+	r.Require("strkept_source_panics_recovered", 3000)
+	r.Require("strkept_calls_after_source_panic", 2000)
+	r.Require("stredge_sets_with_U+FFFD_member", 500)
+	r.Require("stredge_sets_of_U+FFFD_only", 100)
+	r.Require("stredge_results_checked_bytewise_against_U+FFFD_sets", 10000)
+	r.Require("stredge_sets_with_U+0000", 100)
+	r.Require("stredge_sets_with_U+10FFFF", 100)
+	r.Require("strbig_calls_n_ge_4095", 60)
+	r.Require("strbig_calls_n_ge_65535", 20)
+	r.Require("strbig_sets_ge_32767", 10)
+	r.Require("strbig_sets_ge_65535", 3)
+	r.Require("b32kept_results_parsed_later", 100000)
+	r.Require("b32kept_parsed_from_reused_buffer", 20000)
+	r.Require("b32long_inputs_one_invalid_byte", 10000)
+	r.Require("b32long_invalid_byte_before_the_last_13", 5000)
+	r.Require("b32long_cases_len_ge_4095", 20)
+	r.Require("idodd_ids_future_start", 5000)
+	r.Require("idodd_ids_saturated_past_start", 1000)
+	r.Require("idodd_ids_saturated_future_start", 1000)
+	r.Require("idodd_ids_wallclock_past_start", 1000)
+	r.Require("idreader_ids_with_replaced_reader", 2000)
+	r.Require("idreader_cases_with_failed_reads", 80)
+	r.Require("idreader_ids_reader_kind_3", 100)
+	r.Require("idreader_ids_after_reader_restored", 800)
+	r.Require("idreader_ordered_pairs_checked", 2000)
+	r.Require("cold_start_cases", 2*coldKinds)
+	r.Require("cold_start_first_call_parse_invalid", 4)
+	r.Require("cold_start_first_call_parse_digits", 2)
+	r.Require("cold_start_first_call_default_string", 2)
+	r.Require("cold_start_first_call_default_id", 2)
+	r.Require("defaults_charset_reconfigurations", 120)
+	r.Require("defaults_string_calls_after_reconfiguration", 300)
+	r.Require("defaults_start_time_reconfigurations", 120)
+	r.Require("defaults_id_sandwiches_checked", 600)
+	r.Require("defaults_id_ordered_pairs_checked", 300)
 	r.Finish()
 }
